@@ -534,6 +534,23 @@ theorem C15_array_index_table (a : Arr) (i n v : Nat) :
     (a.items.length < W → a.back.isSome = decide (0 < a.items.length)) :=
   ⟨Arr.at_isSome a i, Arr.insert_isSome a i n v, Arr.removeBack_isSome a n, Arr.remove_isSome a i n, Arr.back_isSome a⟩
 
+/-- "never corrupts the container": `AddBackNogrow` / `AddBackNogrowVar` / `AddBackNogrowCrt` of Array and SegmentedArray is accepted
+    exactly when the count is below the capacity the object reports (otherwise `invalid_argument`, the array is returned
+    unchanged - `none` carries no new state), and an accepted call appends exactly the item -/
+theorem C15_array_nogrow_table (a : Arr) (cap v : Nat) :
+    (a.addBackNogrow cap v).isSome = decide (a.items.length < cap) ∧
+    (∀ a', a.addBackNogrow cap v = some a' → a'.items = a.items ++ [v] ∧ a'.id = a.id ∧ a'.seg = a.seg) := by
+  unfold Arr.addBackNogrow
+  by_cases h : a.items.length < cap
+  · refine ⟨by simp [h, chk], ?_⟩
+    intro a' ha
+    simp [h, chk] at ha
+    subst ha
+    exact ⟨rfl, rfl, rfl⟩
+  · refine ⟨by simp [h, chk], ?_⟩
+    intro a' ha
+    simp [h, chk] at ha
+
 /-- index iterators: `+=` stays inside `[0, count]`, a null iterator only accepts `+= 0`, iterators of different arrays
     cannot be subtracted / compared, dereferencing a null iterator throws, SegmentedArray iterators also throw at the end -/
 theorem C15_array_iterator_table (it jt : AIt) (a : Arr) (count : Nat) (d : Int) :
